@@ -102,6 +102,14 @@ def impl(case):
                 sc.append(bool(v))
             res["in_image_scalar"] = sc
             res["in_image_scalar_0d"] = types_ok
+            # in_image decides with its own masking settings: keywords meant for invert must not change the answer
+            alt = []
+            for kw2 in ({"fill_value": 0.0}, {"fill_value": 1.0, "with_bounding_box": False}):
+                try:
+                    alt.append([bool(v) for v in np.asarray(w.in_image(*world, **kw2))])
+                except Exception as e:
+                    alt.append("err:" + C.exc_enum(e))
+            res["in_image_kw"] = alt
         except Exception as e:
             res["in_image_err"] = C.exc_enum(e) + ":" + str(e)[:80]
     return res
@@ -166,6 +174,10 @@ def oracle(case, res):
     elif "in_image" in res:
         if res["in_image_scalar"] != res["in_image"]:
             out.append(("in_image_scalar", "in_image scalar answers %s differ from the array answer %s" % (res["in_image_scalar"], res["in_image"])))
+        for a_ in res.get("in_image_kw", []):
+            if a_ != res["in_image"]:
+                out.append(("in_image_kw", "in_image with fill_value / with_bounding_box keywords answers %s, without them %s" % (a_, res["in_image"])))
+                break
         if res["in_image_shape"] != [npts] or not res["in_image_scalar_0d"]:
             out.append(("in_image_shape", "in_image shape %s for %d points / scalar answer not 0-d" % (res["in_image_shape"], npts)))
     return out[:4]
